@@ -867,19 +867,30 @@ pub fn all_ops(logs: &[ClientLog]) -> Vec<&HOp> {
     v
 }
 
+/// A path for a report: long ones are cut (hostile paths may be a megabyte).
+fn show_path(p: &str) -> String {
+    if p.len() <= 160 {
+        return format!("{p:?}");
+    }
+    let head: String = p.chars().take(60).collect();
+    format!("{head:?}…({} bytes)", p.len())
+}
+
 pub fn describe(op: &HOp) -> String {
     let k = match &op.kind {
         OpKindH::Put { path, expected, body, declared, .. } => format!(
-            "Put {path:?} expected={} body={}({}B) {declared:?}",
+            "Put {} expected={} body={}({}B) {declared:?}",
+            show_path(path),
             expected.map(|h| short_hex(&h)).unwrap_or_else(|| "None".into()),
             short_hex(&b3(body)),
             body.len()
         ),
         OpKindH::Delete { path, expected } => format!(
-            "Delete {path:?} expected={}",
+            "Delete {} expected={}",
+            show_path(path),
             expected.map(|h| short_hex(&h)).unwrap_or_else(|| "None".into())
         ),
-        OpKindH::Get { path } => format!("Get {path:?}"),
+        OpKindH::Get { path } => format!("Get {}", show_path(path)),
         OpKindH::List => "List".into(),
         OpKindH::Hello => "Hello".into(),
         OpKindH::Raw => "Raw".into(),
